@@ -28,7 +28,6 @@ RULE = ("scenario = one call of stochastic_universal_sampling / tiled_choice / a
 COMPONENTS = {"real": ["pybrops.core.random.sampling (all four functions)", "numpy PCG64 / MT19937 behind the seam"],
               "stub": ["numpy.random.Generator / RandomState subclasses (sim.rngseam) answering scripted calls"]}
 ASSUMPTIONS = ["scripted draws are restricted to values the real generator method can return for the same arguments",
-               "cross tables handed to outcross_shuffle are C-contiguous (the function documents in-place operation on the array given)",
                "SUS counts within 64*eps*k*n of an integer expectation accept both neighbouring integers",
                "axis_shuffle is called with non-negative axes forming a proper subset of the array's axes"]
 
@@ -112,7 +111,7 @@ def generate(R, tier):
         shape = [R.randint(1, 4) for _ in range(nd)]
         naxis = R.randint(1, nd - 1)
         axes = sorted(R.sample(range(nd), naxis))
-        sc.update(shape=shape, axes=axes, axis_scalar=(naxis == 1 and R.random() < 0.5), dup=R.random() < 0.3)
+        sc.update(shape=shape, axes=axes, axis_scalar=(naxis == 1 and R.random() < 0.5), dup=R.random() < 0.3, forder=R.random() < 0.25)
         sm = R.choice(["pass", "pass", "pass", "reverse", "rotate"])
         if sm != "pass":
             sc["rng"]["script"].append({"method": "shuffle", "mode": sm})
@@ -130,7 +129,7 @@ def generate(R, tier):
             tab = [flat[r * npar:(r + 1) * npar] for r in range(ncross)]
         else:
             tab = [[0] * npar for _ in range(ncross)]
-        sc.update(table=tab, tstyle=style)
+        sc.update(table=tab, tstyle=style, layout=R.choice(["C", "C", "F", "view"]))
         sm = R.choice(["pass", "pass", "identity", "reverse", "rotate"])
         if sm != "pass":
             sc["rng"]["script"].append({"method": "shuffle", "mode": sm})
@@ -167,6 +166,10 @@ def shrink(sc):
                 c["n"] -= 1
                 if sum(c["p"]) > 0 and not any(r["mode"] == "at" for r in c["rng"]["script"]):
                     yield c
+    if sc["fn"] == "outcross" and sc.get("layout", "C") != "C":
+        c = copy.deepcopy(sc)
+        c["layout"] = "C"
+        yield c
     if sc["fn"] == "outcross":
         t = sc["table"]
         if len(t) > 1:
@@ -280,6 +283,8 @@ def _run_axis(sc, g, V, log):
     shape = tuple(sc["shape"])
     N = int(numpy.prod(shape))
     a = (numpy.arange(N) % 3 if sc["dup"] else numpy.arange(N)).astype(float).reshape(shape)
+    if sc.get("forder"):
+        a = numpy.asfortranarray(a)
     before = a.copy()
     axes = tuple(sc["axes"])
     axis = axes[0] if sc["axis_scalar"] else axes
@@ -311,6 +316,11 @@ def _dups(t):
 
 def _run_outcross(sc, g, V, log):
     x = numpy.array(sc["table"], dtype=int)
+    lay = sc.get("layout", "C")
+    if lay == "F":
+        x = numpy.asfortranarray(x)                       # column-major memory, same table
+    elif lay == "view":
+        x = numpy.concatenate([x, numpy.full((x.shape[0], 1), -1)], axis=1)[:, :-1]      # non-contiguous view of a wider array
     before = x.copy()
     C = "outcross_shuffle"
     try:
@@ -334,7 +344,7 @@ def _run_outcross(sc, g, V, log):
             f[i], f[j] = f[j], f[i]
             t = [f[r * npar:(r + 1) * npar] for r in range(x.shape[0])]
             if _dups(t) < d1:
-                V.append(viol("outcross-exchange-minimal", C, "improving-exchange",
+                V.append(viol("outcross-exchange-minimal", C, "improving-exchange" if lay == "C" else "improving-exchange|layout=" + lay,
                               "exchange of entries %d and %d reduces repeats %d -> %d in %s (input %s)" % (i, j, d1, _dups(t), x.tolist(), before.tolist())))
                 return
 
@@ -363,7 +373,9 @@ def execute(sc):
         klass = "nd=%d|axes=%s|%s" % (len(sc["shape"]), sc["axes"], sorted(fired))
         nontriv = int(numpy.prod(sc["shape"])) >= 2
     else:
-        klass = "%s|%dx%d|%s" % (sc["tstyle"], len(sc["table"]), len(sc["table"][0]), sorted(fired))
+        klass = "%s|%dx%d|%s|%s" % (sc["tstyle"], len(sc["table"]), len(sc["table"][0]), sorted(fired), sc.get("layout", "C"))
+        if sc.get("layout", "C") != "C":
+            fired = dict(fired, **{"table_layout_" + sc["layout"]: 1})
         nontriv = len(sc["table"]) * len(sc["table"][0]) >= 2
         if _dups(sc["table"]) > 0:
             probes["outcross_input_has_repeats"] = 1
